@@ -28,6 +28,12 @@ def gen_cases(ctx):
     sizes = [1, 2, 3, 4, 6, 8, 12, 16] if ctx.tier == "quick" else [1, 2, 3, 4, 8, 16, 32, 64]
     while True:
         n = rng.choice(sizes)
+        if rng.random() < 0.08:
+            # the post-processing of T on its own: tridiagonal matrices WITH negative eigenvalues (what a rank-deficient operator plus
+            # rounding produces), where the masking of negative Ritz values is not a no-op
+            yield dict(mode="t2d", k=rng.choice([1, 2, 3, 5, 8, 33]), lead=rng.choice([[], [2], [3, 2]]), dtype=rng.choice(["f64", "f32"]),
+                       shift=rng.choice([-1.0, 0.0, 0.5, 3.0]), seed=rng.randrange(1 << 30))
+            continue
         yield dict(n=n, batch=rng.choice([[], [], [2], [2, 2]]), dtype=rng.choice(["f64", "f64", "f32"]),
                    family=rng.choice(["full", "full", "rankdef", "repeated", "identity_multiple", "mixed_batch"]),
                    kappa=rng.choice([2.0, 20.0, 1e3]), init=rng.choice(["supplied1", "supplied1", "supplied3", "random"]),
@@ -78,7 +84,53 @@ def krylov_dim(A, v, tol=1e-7):
     return torch.tensor(dims).reshape(A.shape[:-2]) if A.dim() > 2 else torch.tensor(dims[0])
 
 
+def run_t2d(case, ctx):
+    from linear_operator.utils.lanczos import lanczos_tridiag_to_diag
+
+    dt = zoo.DT[case["dtype"]]
+    g = torch.Generator().manual_seed(case["seed"])
+    k, lead = case["k"], case["lead"]
+    d = torch.randn(*lead, k, generator=g, dtype=torch.float64) + case["shift"]
+    e = torch.randn(*lead, max(k - 1, 0), generator=g, dtype=torch.float64)
+    T = torch.diag_embed(d)
+    if k > 1:
+        T = T + torch.diag_embed(e, offset=1) + torch.diag_embed(e, offset=-1)
+    T = T.to(dt)
+    T64 = T.to(torch.float64)
+    kw = dict(cls="lanczos_tridiag_to_diag", path="t2d", tags={"t2d"}, info={case["dtype"], f"k{k}", f"lead{len(lead)}"})
+    ctx.stat("runs")
+    out, ex = compare.attempt(lambda: lanczos_tridiag_to_diag(T.clone()))
+    if ex is not None:
+        ctx.fail("tridiag_to_diag", "exception", exc=ex, **kw)
+        return
+    ev, V = out
+    if tuple(ev.shape) != (*lead, k) or tuple(V.shape) != (*lead, k, k):
+        ctx.fail("tridiag_to_diag_shapes", "shape", detail=f"evals {tuple(ev.shape)} evecs {tuple(V.shape)} for T {tuple(T.shape)}", **kw)
+        return
+    w, U = torch.linalg.eigh(T64)
+    sc = float(w.abs().max()) + 1e-300
+    tol = 1e-9 if dt == torch.float64 else 2e-3
+    # eigenvalues that are negative beyond rounding are masked: value 1, eigenvector column zero; the others reproduce the positive part
+    clear = w.abs() > 1e3 * tol * sc
+    pos = (U * (w.clamp_min(0)).unsqueeze(-2)) @ U.mT
+    e64, V64 = ev.to(torch.float64), V.to(torch.float64)
+    rec = (V64 * torch.where(e64 == 1, torch.zeros_like(e64), e64).unsqueeze(-2)) @ V64.mT  # masked columns are zero anyway
+    rec_all = (V64 * e64.unsqueeze(-2)) @ V64.mT
+    nneg = int(((w < 0) & clear).sum())
+    key = f"k{k}|{case['dtype']}|lead{len(lead)}|neg{min(nneg, 2)}"
+    err = float((rec_all - pos).abs().max()) / sc
+    ambiguous = bool((~clear).any())
+    if not bool((e64 >= 0).all()):
+        ctx.fail("tridiag_to_diag_eigenvalues_nonnegative", "value", detail="a negative eigenvalue was returned", **kw)
+    elif not ambiguous and not err <= 10 * tol:
+        ctx.fail("tridiag_to_diag_positive_part", "value", err=err, detail=f"V diag(e) V^T differs from the positive part of T by {err:.2e} ({nneg} negative eigenvalues, k={k})", **kw)
+    else:
+        ctx.ok("tridiag_to_diag_positive_part", key, k >= 2 and nneg >= 1, sample=dict(k=k, negative_eigenvalues=nneg, err=err))
+
+
 def run_case(case, ctx):
+    if case.get("mode") == "t2d":
+        return run_t2d(case, ctx)
     from linear_operator.operators import DenseLinearOperator
     from linear_operator.utils.lanczos import lanczos_tridiag
 
